@@ -760,6 +760,7 @@ func runC12(res *Result, rng *RNG, tier string, outDir string) {
 	if tier == "thorough" {
 		n = 8000
 	}
+	c12SiblingRules(res)
 	var cs azCases
 	for i := 0; i < n; i++ {
 		r := rng.Fork()
@@ -1450,6 +1451,94 @@ func c03SharedValueMatrix(res *Result) {
 				res.Violate("check-free-block-changes-verdict:shared-value:"+c.name, "a check-free block whose rule applies an operation to an authority fact's set changes the verdict (blocks "+order+"): alone "+ref.first+", with it "+got.first+" / "+got.second, rep2)
 			} else if got.query != ref.query {
 				res.Violate("check-free-block-changes-facts:shared-value:"+c.name, "a check-free block whose rule applies an operation to an authority fact's set changes that fact as read back by Query: alone "+ref.query+", with it "+got.query, rep2)
+			}
+		}
+	}
+}
+
+// c12SiblingRules: a disjunction written as two rules with the same head and the same body that
+// differ only in their constraints.  Both rules must be applied wherever they are supplied
+// (authorizer, authority block, one in each, a later block) and in whichever order.
+func c12SiblingRules(res *Result) {
+	pub, priv := rootKeys()
+	pairs := [][2]string{
+		{`readable($r) <- resource($r), $r.starts_with("a")`, `readable($r) <- resource($r), $r.ends_with("z")`},
+		{`small($n) <- size($n), $n < 2`, `small($n) <- size($n), $n == 7`},
+		{`ok($s) <- tags($s), $s.contains(1)`, `ok($s) <- tags($s), $s.contains(9)`},
+	}
+	facts := [][]string{{`resource("abc")`, `resource("xyz")`}, {`size(1)`, `size(7)`}, {`tags([1, 2])`, `tags([9])`}}
+	checks := []string{`check if readable("abc"), readable("xyz")`, `check if small(1), small(7)`, `check if ok([1, 2]), ok([9])`}
+	for k, pr := range pairs {
+		for _, place := range []string{"authorizer", "authority", "split", "block1"} {
+			var outs []string
+			for _, ord := range [][2]int{{0, 1}, {1, 0}} {
+				var verdict string
+				pan := usable(func() {
+					b := biscuit.NewBuilder(priv, biscuit.WithRNG(detReader{NewRNG(41)}))
+					for _, ft := range facts[k] {
+						f, err := parser.FromStringFact(ft)
+						if err != nil {
+							fatal("sibling rules: %v", err)
+						}
+						b.AddAuthorityFact(f)
+					}
+					r0, err0 := parser.FromStringRule(pr[ord[0]])
+					r1, err1 := parser.FromStringRule(pr[ord[1]])
+					ch, err2 := parser.FromStringCheck(checks[k])
+					if err0 != nil || err1 != nil || err2 != nil {
+						fatal("sibling rules: %v %v %v", err0, err1, err2)
+					}
+					if place == "authority" {
+						b.AddAuthorityRule(r0)
+						b.AddAuthorityRule(r1)
+					}
+					if place == "split" {
+						b.AddAuthorityRule(r0)
+					}
+					t, err := b.Build()
+					if err != nil {
+						fatal("sibling rules: %v", err)
+					}
+					if place == "block1" {
+						bb := t.CreateBlock()
+						bb.AddRule(r0)
+						bb.AddRule(r1)
+						bb.AddCheck(ch)
+						if t, err = t.Append(detReader{NewRNG(42)}, bb.Build()); err != nil {
+							fatal("sibling rules: %v", err)
+						}
+					}
+					a, err := t.AuthorizerFor(biscuit.WithSingularRootPublicKey(pub), biscuit.WithWorldOptions(longDuration()))
+					if err != nil {
+						fatal("sibling rules: %v", err)
+					}
+					if place == "authorizer" {
+						a.AddRule(r0)
+						a.AddRule(r1)
+					}
+					if place == "split" {
+						a.AddRule(r1)
+					}
+					if place != "block1" {
+						a.AddCheck(ch)
+					}
+					a.AddPolicy(biscuit.DefaultAllowPolicy)
+					verdict = fmt.Sprint(a.Authorize())
+				})
+				res.Count(fmt.Sprintf("sibling-rules:%d:%s:%v", k, place, ord), true)
+				res.Dist("sibling-rules:" + place)
+				rep := map[string]interface{}{"rules_in_order": []string{pr[ord[0]], pr[ord[1]]}, "placed_in": place, "authority_facts": facts[k], "check": checks[k]}
+				if pan != "" {
+					res.Violate("panic:sibling-rules", "panic: "+pan, rep)
+					continue
+				}
+				outs = append(outs, verdict)
+				if verdict != "<nil>" {
+					res.Violate("sibling-rule-dropped:"+place, "two rules with the same head and body and different constraints ("+place+"): each fact satisfies one of them, the check needing both is refused: "+verdict, rep)
+				}
+			}
+			if len(outs) == 2 && outs[0] != outs[1] {
+				res.Violate("rule-order-changes-verdict:"+place, "swapping two sibling rules changes the outcome: "+outs[0]+" vs "+outs[1], map[string]interface{}{"rules": pr, "placed_in": place})
 			}
 		}
 	}
